@@ -216,6 +216,27 @@ def gen_library(seed, idx):
         c = gen_const(rng, used_consts | used_members, aliases, i)
         used_consts.add(c['cname'])
         consts.append(c)
+    # namespaces with two symbol prefixes: an enumeration whose members carry different ones shares no word at all, so
+    # each member loses the namespace prefix it carries
+    symbol_prefixes = ['foo']
+    if rng.random() < 0.3:
+        symbol_prefixes = ['foo', 'bar']
+        for k in range(rng.choice([1, 2])):
+            tw = 'Mix%d' % k
+            tails = rng.sample(WORDS, min(len(WORDS), rng.choice([2, 3, 5])))
+            members = []
+            for i, t in enumerate(tails):
+                base = ['FOO_', 'BAR_'][i % 2] if rng.random() < 0.8 else rng.choice(['FOO_', 'BAR_'])
+                if len(members) == 1:
+                    base = 'BAR_' if members[0]['name'].startswith('FOO_') else 'FOO_'
+                nm = base + t + ('_%d' % k if k else '')
+                if nm in used_members:
+                    continue
+                used_members.add(nm)
+                members.append({'name': nm, 'value': len(members), 'expr': None, 'private': False})
+            if len(members) >= 2:
+                enums.append({'ctype': 'Foo' + tw, 'members': members, 'flags_marker': False, 'uses_shift': False, 'tag': 'anon',
+                              'style': 'two-prefix', 'valstyle': 'implicit'})
     lines = ['#ifndef FOO_H', '#define FOO_H', '']
     for an, cast in aliases.items():
         lines.append('typedef %s %s;' % (cast, an))
@@ -228,7 +249,7 @@ def gen_library(seed, idx):
             lines.append('#define %s %s' % (it['cname'], it['text']))
         lines.append('')
     lines.append('#endif')
-    return {'enums': enums, 'consts': consts, 'aliases': aliases, 'header': '\n'.join(lines) + '\n'}
+    return {'enums': enums, 'consts': consts, 'aliases': aliases, 'header': '\n'.join(lines) + '\n', 'symbol_prefixes': symbol_prefixes}
 
 
 class PostBroken(Exception):
@@ -302,6 +323,8 @@ def check_library(lib, gir):
             hits['member'] += 1
             if g.get('value') != str(m['value']):
                 out.append(('member-value', '%s = %s emitted with value=%r (written: %s)' % (m['name'], m['value'], g.get('value'), m['expr'])))
+            if e['style'] == 'two-prefix' and ref_common_prefix(allnames) is None:
+                prefix = m['name'][:4]          # FOO_ or BAR_: the namespace prefix this member carries
             if not m['name'].startswith(prefix):
                 continue
             want = m['name'][len(prefix):].lower()
@@ -368,7 +391,7 @@ def run_case(case):
     lib = gen_library(seed, idx)
     m0 = dict(scan.mech)
     c0 = st['cnt']['contract']
-    r = scan.scan({'namespace': 'Foo', 'version': '1.0', 'identifier_prefixes': ['Foo'], 'symbol_prefixes': ['foo'],
+    r = scan.scan({'namespace': 'Foo', 'version': '1.0', 'identifier_prefixes': ['Foo'], 'symbol_prefixes': lib.get('symbol_prefixes', ['foo']),
                    'includes': ['GLib-2.0'], 'headers': [('/src/foo.h', lib['header'])]})
     res = {'mech': {k: v - m0.get(k, 0) for k, v in scan.mech.items() if v - m0.get(k, 0)},
            'hits': {'contract_enum_common_prefix': st['cnt']['contract'] - c0}}
